@@ -24,7 +24,7 @@ func init() { register(c03{}) }
 func (c03) Meta() core.Meta {
 	return core.Meta{
 		ID: "C03", Level: "exploration",
-		Rule: "case i = f(seed,i): JSON-shaped value (maps, lists of scalars/maps/mixed/nested, strings with XML specials, float64, bool, null, empty containers, '-' attribute entries with scalar values, '#text' entries incl. null) with valid-name keys; roots: multi-key Map (default or explicit root tag), single-key Map with non-list value, any value through AnyXml/AnyXmlIndent (default/explicit tags), and JSON text through j2x.JsonToXml. Value escaping on. Monitors: std tokenizer accepts the output with exactly one root; the observer's XTree equals the reference tree (lists as repeated elements in order with nested lists flattened, attributes, text, empty element for null/\"\"/[]/{}), order-insensitive across names, order-exact within a name; NewMapXml(output) equals the reference decode of that tree; retained outputs stay intact. Non-trivial: depth>=2 and a list, attribute or text entry; distinct by hash(value, root form).",
+		Rule:        "case i = f(seed,i): JSON-shaped value (maps, lists of scalars/maps/mixed/nested, strings with XML specials, float64, bool, null, empty containers, '-' attribute entries with scalar values, '#text' entries incl. null) with valid-name keys; roots: multi-key Map (default or explicit root tag), single-key Map with non-list value, any value through AnyXml/AnyXmlIndent (default/explicit tags), and JSON text through j2x.JsonToXml. Value escaping on. Monitors: std tokenizer accepts the output with exactly one root; the observer's XTree equals the reference tree (lists as repeated elements in order with nested lists flattened, attributes, text, empty element for null/\"\"/[]/{}), order-insensitive across names, order-exact within a name; NewMapXml(output) equals the reference decode of that tree; retained outputs stay intact. Non-trivial: depth>=2 and a list, attribute or text entry; distinct by hash(value, root form).",
 		Assumptions: []string{"reference tree written from the documented encoding rules (DESIGN 3.3 refTree)", "a null attribute entry is unspecified (error or empty value accepted)", "a single-key map that supplies a tag has an element-name key"},
 		Anchors:     []string{"Map.Xml", "Map.XmlIndent", "AnyXml", "AnyXmlIndent", "marshalMapToXmlIndent", "j2x.JsonToXml", "escapeChars"},
 		Floors:      map[string]int64{"shape:nested-list": 300, "shape:empty-list": 300, "shape:null": 1000, "shape:attr": 1000, "shape:text-entry": 500, "shape:null-text": 50, "root:single-key": 500, "root:any-list": 300, "root:any-scalar": 200, "root:explicit-tag": 300, "api:j2x.JsonToXml": 300},
@@ -38,7 +38,7 @@ func (c03) Cases(tier string, race bool) int {
 	if tier == "thorough" {
 		return 500000
 	}
-	return 40000
+	return 100000
 }
 
 var c03keys = []string{"a", "b", "c", "d", "e1", "x-y", "Z_z", "ns:q"}
